@@ -202,6 +202,9 @@ func ReplayK(t *testing.T, cfg PropCfg, path string) {
 	if err != nil {
 		t.Fatalf("cannot read replay file: %v", err)
 	}
+	if r.Engine != "K" && r.Engine != "" {
+		return // a case of another part of the property
+	}
 	b := SharedBase()
 	w := NewWorld(b)
 	h := NewHistory(w)
